@@ -823,6 +823,7 @@ func (bh *blipHandler) handleChanges(rq *blip.Message) error {
 	if collectionCtx.sgr2PullAddExpectedSeqsCallback != nil {
 		collectionCtx.sgr2PullAddExpectedSeqsCallback(expectedSeqs)
 	}
+	verifPoint("pull-changes-between-expected-and-known")
 	if collectionCtx.sgr2PullAlreadyKnownSeqsCallback != nil {
 		collectionCtx.sgr2PullAlreadyKnownSeqsCallback(alreadyKnownSeqs...)
 	}
